@@ -267,12 +267,9 @@ func genCompose(c *genCtx) error {
 			if base.st.Out != "run" {
 				return
 			}
-			if base.edge && !c.thorough() && rng.Intn(12) != 0 {
-				return
-			}
-			o := sweepOpts{allBytes: false, stop: false, rejectConts: conts}
+			o := sweepOpts{allBytes: false, stop: false, rejectConts: conts, onePerClass: !c.thorough()}
 			forSweepInputs(ss, mem, base, o, rng, func(in []byte, viable bool) {
-				if !c.thorough() && !viable && rng.Intn(2) == 0 {
+				if !c.thorough() && !viable && base.edge && rng.Intn(2) == 0 {
 					return
 				}
 				k := rng.Intn(len(progKinds))
